@@ -394,7 +394,8 @@ func runBatch(ctx *hx.Ctx, r *hx.Rand, cases []*Case, sweepMax int) {
 			ctx.Cov.Add("alu-instructions-checked-in-context", o.AluSeen)
 			for _, op := range []string{"SSTORE", "SLOAD", "MSTORE", "MLOAD", "MSTORE8", "JUMP", "JUMPI", "CALL", "STATICCALL", "DELEGATECALL", "CALLCODE",
 				"LOG0", "LOG1", "LOG2", "LOG3", "LOG4", "RETURNDATACOPY", "CALLDATACOPY", "CODECOPY", "REVERT", "RETURN",
-				"CREATE", "CREATE2", "SELFDESTRUCT", "SHA3", "BALANCE", "SELFBALANCE", "EXTCODESIZE", "EXTCODECOPY", "EXTCODEHASH"} {
+				"CREATE", "CREATE2", "SELFDESTRUCT", "SHA3", "BALANCE", "SELFBALANCE", "EXTCODESIZE", "EXTCODECOPY", "EXTCODEHASH",
+				"checked-precompile-identity", "checked-precompile-modexp"} {
 				if o.Ops[op] > 0 {
 					ctx.Cov.Add("executed="+op, o.Ops[op])
 				}
@@ -612,7 +613,7 @@ func main() {
 		}
 	}
 	// ALU stream
-	nAlu := envInt("C10_NALU", ctx.Scale(25000, 400000)) // programs of 8 vectors
+	nAlu := envInt("C10_NALU", ctx.Scale(25000, 150000)) // programs of 8 vectors
 	ra := r.Fork(1)
 	for done := 0; done < nAlu; done += 5000 {
 		var cs []*Case
@@ -622,10 +623,10 @@ func main() {
 		runBatch(ctx, ra, cs, 0)
 	}
 	// program stream with out-of-gas sweeps
-	nProg := envInt("C10_NPROG", ctx.Scale(10000, 600000))
+	nProg := envInt("C10_NPROG", ctx.Scale(10000, 100000))
 	sweep := 6
 	if ctx.Thorough() {
-		sweep = 24
+		sweep = 12
 	}
 	rp := r.Fork(2)
 	for done := 0; done < nProg; done += 2000 {
